@@ -999,6 +999,13 @@ package yang
 //@     body_ensures[add-and-replace-write-the-mandatory-the-deviate-statement-says] (dt == DeviationAdd || dt == DeviationReplace) && devSpec.Mandatory != TSUnset ==> deviatedNode.Mandatory == devSpec.Mandatory
 //@     body_ensures[delete-unsets-config-and-mandatory] dt == DeviationDelete ==> (devSpec.Config != TSUnset ==> deviatedNode.Config == TSUnset) && (devSpec.Mandatory != TSUnset ==> deviatedNode.Mandatory == TSUnset)
 //@     body_ensures[replace-writes-the-defaults-of-the-deviate-statement] dt == DeviationReplace && len(devSpec.Default) > 0 ==> len(deviatedNode.Default) == len(devSpec.Default) && (forall i int :: 0 <= i && i < len(devSpec.Default) ==> deviatedNode.Default[i] == devSpec.Default[i])
+//@     body_ensures[add-gives-a-node-without-default-the-one-default-of-the-deviate-statement] dt == DeviationAdd && len(devSpec.Default) == 1 && old(len(deviatedNode.Default)) == 0 && !(deviatedNode.Dir == nil && deviatedNode.Kind == LeafEntry && deviatedNode.ListAttr != nil)
+//@                 ==> len(deviatedNode.Default) == 1 && deviatedNode.Default[0] == devSpec.Default[0]
+//@     body_ensures[add-appends-the-defaults-to-those-of-a-leaf-list] dt == DeviationAdd && len(devSpec.Default) > 0 && devSpec != deviatedNode && deviatedNode.Dir == nil && deviatedNode.Kind == LeafEntry && deviatedNode.ListAttr != nil
+//@                 ==> len(deviatedNode.Default) == old(len(deviatedNode.Default)) + len(devSpec.Default)
+//@                  && (forall i int :: 0 <= i && i < old(len(deviatedNode.Default)) ==> deviatedNode.Default[i] == old(deviatedNode.Default[i]))
+//@     body_ensures[delete-removes-the-default-it-names] dt == DeviationDelete && len(devSpec.Default) > 0 && !(deviatedNode.Dir == nil && deviatedNode.Kind == LeafEntry && deviatedNode.ListAttr != nil)
+//@                 && old(len(deviatedNode.Default)) > 0 && devSpec.Default[0] == old(deviatedNode.Default[0]) ==> len(deviatedNode.Default) == 0
 //@     body_ensures[add-and-replace-write-the-element-bounds] (dt == DeviationAdd || dt == DeviationReplace) && listy(deviatedNode) && devSpec.ListAttr != nil && deviatedNode.ListAttr != devSpec.ListAttr
 //@                 ==> (devSpec.deviatePresence.hasMinElements ==> deviatedNode.ListAttr.MinElements == devSpec.ListAttr.MinElements) && (devSpec.deviatePresence.hasMaxElements ==> deviatedNode.ListAttr.MaxElements == devSpec.ListAttr.MaxElements)
 //@     body_ensures[delete-resets-the-element-bounds] dt == DeviationDelete && listy(deviatedNode) && devSpec.ListAttr != nil
